@@ -720,7 +720,8 @@ def select_variants(quick: bool, seed: int = 0) -> list[dict[str, Any]]:
     """quick: every entry of the quick tier once, main spelling, direction A->B.
     thorough: every entry with its main spelling in BOTH directions, plus ONE alternative spelling (chosen by the seed
     among the remaining ones: over the seeds every spelling is reached) in one direction (the seed decides which);
-    every fifth chain (by seed) starts from an empty cache directory instead of the typeshed-only template."""
+    two chains in seven (by seed) start from an empty cache directory instead of the typeshed-only template;
+    entries expected to leave the cold output unchanged (`same`) get no alternative spelling."""
     build_table()
     key = set(impl_sets()["affecting"])
     pm = per_module_options()
@@ -744,16 +745,16 @@ def select_variants(quick: bool, seed: int = 0) -> list[dict[str, Any]]:
             vs.append(main)
             continue
         main["one_dir"] = False
-        main["truecold"] = main.get("truecold") or (seed + idx) % 5 == 0
+        main["truecold"] = main.get("truecold") or (seed + idx) % 7 == 0
         vs.append(main)
         alts = [v for v in allv if v is not main and not v.get("special")]
-        if alts:
+        if alts and not e.get("same"):
             alt = alts[(seed + idx) % len(alts)]
             if (seed + idx) % 2:
                 alt = swap_sides(alt)
             alt["one_dir"] = True
             alt["scrub_ref"] = e["attr"] in key and alt["spelling"] in ("config", "cmdline") and e["attr"] not in ("fixed_format_cache",)
-            alt["truecold"] = alt.get("truecold") or (seed + idx) % 5 == 2
+            alt["truecold"] = alt.get("truecold") or (seed + idx) % 7 == 3
             vs.append(alt)
     return vs
 
